@@ -456,3 +456,42 @@ def r_notfound(db, rep):
                 rep.viol("%s#never-NORESULT" % callee.qn, callee.loc,
                          "%s can never return 0 (its result is defined only by non-zero constants and increments), yet %s (%s) "
                          "branches on it being NORESULT: the not-found case is reported as a match" % (callee.qn, g.qn, g.nloc(tests[0])), callee.qn)
+
+
+@rule("R-SENTINEL", 8, "an all-ones `not found` sentinel is produced at the width of the function's return type: `(T)-1` with T narrower than "
+                       "the return type widens to 0x00000000FFFFFFFF, which callers that test against (size_t)-1 / add 1 do not recognise")
+def r_sentinel(db, rep):
+    for f in sorted(db.funcs.values(), key=lambda x: (x.file, x.line)):
+        if not f.body or f.file.startswith("libcds/"):
+            continue
+        rt = f.types[f.raw["ret"]] if f.raw.get("ret") is not None else None
+        if not rt or rt.get("kind") not in ("uint", "int") or not rt.get("bits"):
+            continue
+        for n in f.live_nodes():
+            if n["k"] != "ReturnStmt" or n.get("value") is None:
+                continue
+            x = n["value"]
+            widened = False
+            while x["k"] in TRANSPARENT:
+                cs = children(x)
+                if len(cs) != 1:
+                    break
+                if x["k"] == "ImplicitCastExpr" and x.get("ck") == "IntegralCast":
+                    widened = True
+                x = cs[0]
+            if x["k"] not in EXPLICIT_CASTS:
+                continue
+            y = x.get("sub") if x.get("sub") is not None else (children(x) or [None])[0]
+            while y is not None and y["k"] in TRANSPARENT and len(children(y)) == 1:
+                y = children(y)[0]          # the operand as written, before the conversion clang folds into it
+            inner = y.get("cv", y.get("v")) if y is not None else None
+            ct = f.type(x)
+            if inner is None or inner >= 0 or not ct or ct.get("kind") != "uint":
+                continue
+            rep.visit(f)
+            rep.inst(f.nloc(n), "%s returns (%s)%d as %s" % (f.qn, ct["s"], inner, rt["s"]))
+            rep.ob()
+            if ct["bits"] < rt["bits"]:
+                rep.viol("%s#narrow-sentinel" % f.qn, f.nloc(n),
+                         "%s returns (%s)%d from a function returning %s: the value is %d-bit all-ones zero-extended, not the %d-bit sentinel its "
+                         "callers (and sibling implementations) use" % (f.qn, ct["s"], inner, rt["s"], ct["bits"], rt["bits"]), f.qn)
